@@ -27,15 +27,17 @@ VARIABLES l, run, cfg,
   guid,        \* [{"R","R2"} -> <<GUID of the reader as hex text, port offset of its participant>>] (Create lines)
   nack,        \* {<<reader GUID, sn>>}: NACKFRAGs that reached the network since loss was last switched
   refrag,      \* {<<port offset, sn>>}: DATAFRAGs sent to that port since loss was last switched
+  arrived,     \* {<<port offset, sn, fragment>>}: fragments forwarded to that port at any time of the run
+  nfrags,      \* sn -> number of fragments the sample has (from the DATAFRAG headers)
   viol, known
-wire == <<guid, nack, refrag>>
-tvars == <<l, run, cfg, matchDone, lateDone, written, got, gone, guid, nack, refrag, viol, known>>
+wire == <<guid, nack, refrag, arrived, nfrags>>
+tvars == <<l, run, cfg, matchDone, lateDone, written, got, gone, guid, nack, refrag, arrived, nfrags, viol, known>>
 
 NoCfg == [keyed |-> TRUE, wrel |-> TRUE, rrel |-> TRUE, wtl |-> TRUE, rtl |-> TRUE, depth |-> 0, late |-> "none", third |-> FALSE, del |-> "none"]
 TraceInit ==
   /\ l = 1 /\ run = 0 /\ cfg = NoCfg /\ matchDone = FALSE /\ lateDone = FALSE
   /\ written = <<>> /\ got = [w \in {"R", "R2"} |-> <<>>] /\ gone = {} /\ viol = {} /\ known = {}
-  /\ guid = [w \in {"R", "R2"} |-> <<"", 0>>] /\ nack = {} /\ refrag = {}
+  /\ guid = [w \in {"R", "R2"} |-> <<"", 0>>] /\ nack = {} /\ refrag = {} /\ arrived = {} /\ nfrags = <<>>
 
 Compat == (cfg.wrel \/ ~cfg.rrel) /\ (cfg.wtl \/ ~cfg.rtl)
 Compat2 == cfg.wrel /\ (cfg.wtl \/ cfg.late # "tl")
@@ -58,11 +60,19 @@ RecvViol(e) ==
 \* Known finding S3 seen from outside: the writer's sequence number of written[i] is i (one writer, every write and
 \* dispose takes the next number).  A reliable reader hands over in order, so everything behind the lowest missing
 \* number is held back with it.  The signature: in the loss-free suffix the reader asks for fragments of exactly that
-\* number by NACKFRAG and the writer sends no DATAFRAG of it at all.
+\* number by NACKFRAG, the writer sends no DATAFRAG of it at all, and at least one of its fragments really never
+\* reached the reader's participant (a sample whose fragments all arrived and that is still not delivered is
+\* something else).
 SNsOf(ph) == {i \in DOMAIN written : written[i].phase \in ph}
 MissingSNs(who, ph) == {i \in SNsOf(ph) : written[i].item \notin Range(got[who])}
 SMinOf(S) == CHOOSE x \in S : \A y \in S : x <= y
-S3Sig(who, miss) == miss # {} /\ <<guid[who][1], SMinOf(miss)>> \in nack /\ <<guid[who][2], SMinOf(miss)>> \notin refrag
+S3Sig(who, miss) ==
+  /\ miss # {}
+  /\ LET sn == SMinOf(miss) IN
+       /\ <<guid[who][1], sn>> \in nack
+       /\ <<guid[who][2], sn>> \notin refrag
+       /\ sn \in DOMAIN nfrags
+       /\ \E f \in 1..nfrags[sn] : <<guid[who][2], sn, f>> \notin arrived
 S3Clause == "C07_S3_delivery_stuck_behind_sample_with_lost_fragment"
 
 \* R: reliable keep-all pair that was matched before the first write: everything written, in the order written
@@ -119,11 +129,11 @@ Step ==
                        late |-> e.late, third |-> e.third, del |-> e.del]
             /\ matchDone' = FALSE /\ lateDone' = FALSE /\ written' = <<>> /\ got' = [w \in {"R", "R2"} |-> <<>>]
             /\ gone' = {} /\ viol' = {} /\ known' = {}
-            /\ guid' = [w \in {"R", "R2"} |-> <<"", 0>>] /\ nack' = {} /\ refrag' = {}
+            /\ guid' = [w \in {"R", "R2"} |-> <<"", 0>>] /\ nack' = {} /\ refrag' = {} /\ arrived' = {} /\ nfrags' = <<>>
        [] e.ev = "Create" ->
             /\ viol' = viol \cup (IF ~e.ok THEN {"C07_entity_creation_failed"} ELSE {})
             /\ guid' = IF e.what \in {"R", "R2"} THEN [guid EXCEPT ![e.what] = <<e.guid, e.port>>] ELSE guid
-            /\ UNCHANGED <<run, cfg, matchDone, lateDone, written, got, gone, known, nack, refrag>>
+            /\ UNCHANGED <<run, cfg, matchDone, lateDone, written, got, gone, known, nack, refrag, arrived, nfrags>>
        [] e.ev = "St" ->
             /\ viol' = viol \cup (IF e.k = "M" /\ (e.cur < 0 \/ e.chg \notin {-1, 1}) THEN {"C07_matched_status_malformed"} ELSE {})
             /\ UNCHANGED <<run, cfg, matchDone, lateDone, written, got, gone, known, wire>>
@@ -157,10 +167,16 @@ Step ==
             /\ UNCHANGED <<run, cfg, matchDone, lateDone, written, got, viol, known, wire>>
        [] e.ev = "Loss" ->    \* loss switched on or off: a new window of observation starts
             /\ nack' = {} /\ refrag' = {}
-            /\ UNCHANGED <<run, cfg, matchDone, lateDone, written, got, gone, viol, known, guid>>
+            /\ UNCHANGED <<run, cfg, matchDone, lateDone, written, got, gone, viol, known, guid, arrived, nfrags>>
        [] e.ev = "Net" ->
             /\ nack' = IF e.k = "NACKFRAG" /\ e.fate = "fwd" THEN nack \cup {<<e.rg, e.sn>>} ELSE nack
             /\ refrag' = IF e.k = "FRAG" THEN refrag \cup {<<e.to, e.sn>>} ELSE refrag
+            /\ arrived' = IF e.k = "FRAG" /\ e.fate = "fwd"
+                             THEN arrived \cup {<<e.to, e.sn, f>> : f \in e.f..(e.f + e.n - 1)} ELSE arrived
+            /\ nfrags' = IF e.k = "FRAG" /\ e.fsz > 0
+                            THEN [x \in DOMAIN nfrags \cup {e.sn} |->
+                                    IF x = e.sn THEN (e.size + e.fsz - 1) \div e.fsz ELSE nfrags[x]]
+                            ELSE nfrags
             /\ UNCHANGED <<run, cfg, matchDone, lateDone, written, got, gone, viol, known, guid>>
        [] e.ev \in {"Blackout", "End"} -> UNCHANGED <<run, cfg, matchDone, lateDone, written, got, gone, viol, known, wire>>
   /\ (viol' # viol /\ viol' # {}) =>
